@@ -1134,22 +1134,18 @@ Proof.
     + now apply gce_eq_gadd.
 Qed.
 
-Lemma gc_get_add_linked m ents f :
-  gce_eq false (gc_get (add_linked m ents) f) (gadd (gc_get m f) (psum f (ptrs ents))).
-Proof.
-  unfold add_linked, linked_of. rewrite <- gtot_of_log. apply gc_get_fold_nodisk.
-Qed.
+(** what [with_dropped] needs of the way a dropped table's records enter the statistics:
+    [al_exact d]: each file's entry grows by the callback sum over the table's pointers
+    (up to [gce_eq d]); [al_keys]: keys stay distinct and only linked files are added *)
+Definition al_exact (d : bool) (al : gcmap -> list entry -> gcmap) : Prop :=
+  forall m ents f, gce_eq d (gc_get (al m ents) f) (gadd (gc_get m f) (psum f (ptrs ents))).
+Definition al_keys (al : gcmap -> list entry -> gcmap) : Prop :=
+  (forall m ents, NoDup (map fst m) -> NoDup (map fst (al m ents))) /\
+  (forall m ents k, In k (map fst (al m ents)) ->
+     In k (map fst m) \/ exists p, In p (ptrs ents) /\ pf p = k).
 
-Lemma gc_get_drop_fold (tabs : list (N * list entry)) : forall m f,
-  gce_eq false (gc_get (fold_left (fun acc t => add_linked acc (snd t)) tabs m) f)
-               (gadd (gc_get m f) (psum f (tptrs tabs))).
-Proof.
-  induction tabs as [|t tabs IH]; intros m f; cbn [fold_left].
-  - cbn. rewrite gadd_zero_r. apply gce_eq_refl.
-  - eapply gce_eq_trans; [apply IH|].
-    change (tptrs (t :: tabs)) with (ptrs (snd t) ++ tptrs tabs).
-    rewrite psum_app, gadd_assoc. apply gce_eq_gadd. apply gc_get_add_linked.
-Qed.
+Lemma gce_eq_weaken d a b : gce_eq d a b -> gce_eq false a b.
+Proof. intros (A & B & _). repeat split; auto. discriminate. Qed.
 
 Lemma keys_fold_nodisk_nodup lk : forall m,
   NoDup (map fst m) ->
@@ -1159,12 +1155,78 @@ Proof.
   apply IH. now apply keys_add_with_nodup.
 Qed.
 
-Lemma keys_drop_fold_nodup (tabs : list (N * list entry)) : forall m,
-  NoDup (map fst m) ->
-  NoDup (map fst (fold_left (fun acc t => add_linked acc (snd t)) tabs m)).
+Lemma keys_fold_nodisk lk : forall m k,
+  In k (map fst (fold_left (fun acc kx => gc_add_nodisk acc (fst kx) (snd kx)) lk m)) <->
+  In k (map fst lk) \/ In k (map fst m).
 Proof.
-  induction tabs as [|t tabs IH]; intros m ND; cbn [fold_left]; [exact ND|].
-  apply IH. unfold add_linked. now apply keys_fold_nodisk_nodup.
+  induction lk as [|[f x] lk IH]; intros m k; cbn [fold_left map fst In]; [tauto|].
+  rewrite IH. unfold gc_add_nodisk. rewrite keys_add_with. cbn [fst snd]. split.
+  - intros [H|[->|H]]; auto.
+  - intros [[->|H]|H]; auto.
+Qed.
+
+(** the current code: the full entry is added *)
+Lemma add_linked_merge m ents : add_linked m ents = gc_merge (linked_of ents) m.
+Proof. reflexivity. Qed.
+
+Lemma add_linked_exact d : al_exact d add_linked.
+Proof.
+  intros m ents f. rewrite add_linked_merge, gc_get_merge. unfold linked_of.
+  rewrite gtot_of_log. apply gce_eq_refl.
+Qed.
+
+Lemma add_linked_keys : al_keys add_linked.
+Proof.
+  split.
+  - intros m ents ND. rewrite add_linked_merge. now apply keys_merge_nodup.
+  - intros m ents k H. rewrite add_linked_merge in H. apply keys_merge in H.
+    destruct H as [H|H]; [|now left]. right. unfold linked_of in H. now apply keys_of_log in H.
+Qed.
+
+(** 3.1.9: len and bytes only *)
+Lemma add_linked_old_exact : al_exact false add_linked_old.
+Proof.
+  intros m ents f. unfold add_linked_old, linked_of. rewrite <- gtot_of_log. apply gc_get_fold_nodisk.
+Qed.
+
+Lemma add_linked_old_keys : al_keys add_linked_old.
+Proof.
+  split.
+  - intros m ents ND. unfold add_linked_old. now apply keys_fold_nodisk_nodup.
+  - intros m ents k H. unfold add_linked_old in H. apply keys_fold_nodisk in H.
+    destruct H as [H|H]; [|now left]. right. unfold linked_of in H. now apply keys_of_log in H.
+Qed.
+
+Lemma gc_get_drop_fold d al (tabs : list (N * list entry)) : al_exact d al -> forall m f,
+  gce_eq d (gc_get (fold_left (fun acc t => al acc (snd t)) tabs m) f)
+           (gadd (gc_get m f) (psum f (tptrs tabs))).
+Proof.
+  intros AE. induction tabs as [|t tabs IH]; intros m f; cbn [fold_left].
+  - cbn. rewrite gadd_zero_r. apply gce_eq_refl.
+  - eapply gce_eq_trans; [apply IH|].
+    change (tptrs (t :: tabs)) with (ptrs (snd t) ++ tptrs tabs).
+    rewrite psum_app, gadd_assoc. apply gce_eq_gadd. apply AE.
+Qed.
+
+Lemma keys_drop_fold_nodup al (tabs : list (N * list entry)) : al_keys al -> forall m,
+  NoDup (map fst m) ->
+  NoDup (map fst (fold_left (fun acc t => al acc (snd t)) tabs m)).
+Proof.
+  intros [AK _]. induction tabs as [|t tabs IH]; intros m ND; cbn [fold_left]; [exact ND|].
+  apply IH. now apply AK.
+Qed.
+
+Lemma keys_drop_fold al (tabs : list (N * list entry)) : al_keys al -> forall m k,
+  In k (map fst (fold_left (fun acc t => al acc (snd t)) tabs m)) ->
+  In k (map fst m) \/ exists p, In p (tptrs tabs) /\ pf p = k.
+Proof.
+  intros [_ AK]. induction tabs as [|t tabs IH]; intros m k H; cbn [fold_left] in H; [now left|].
+  destruct (IH _ _ H) as [H1|(p & Hp & E)].
+  - apply AK in H1. destruct H1 as [H1|(p & Hp & E)]; [now left|].
+    right. exists p. split; [|exact E]. change (tptrs (t :: tabs)) with (ptrs (snd t) ++ tptrs tabs).
+    apply in_or_app. now left.
+  - right. exists p. split; [|exact E]. change (tptrs (t :: tabs)) with (ptrs (snd t) ++ tptrs tabs).
+    apply in_or_app. now right.
 Qed.
 
 (** the statistics plus the callback sum over removed pointers [L] is the brute-force count
@@ -1186,30 +1248,30 @@ Proof.
     + rewrite E. apply find_file_in; [apply (bi_fids _ _ I) | exact HI].
 Qed.
 
-Theorem blob_drop_tables_inv d tids v :
-  BInvG d v -> frames_pos (b_blobs v) -> BInvG false (blob_drop_tables tids v).
+Lemma drop_tables_with_inv d al tids v :
+  al_exact d al -> al_keys al ->
+  BInvG d v -> frames_pos (b_blobs v) -> BInvG d (drop_tables_with al tids v).
 Proof.
-  intros I POS. unfold blob_drop_tables.
-  destruct (negb (tids_known tids v)); [eapply BInvG_weaken; eauto|].
-  destruct (is_nil (sel_tables tids (b_tables v))); [eapply BInvG_weaken; eauto|].
+  intros AE AK I POS. unfold drop_tables_with.
+  destruct (negb (tids_known tids v)); [exact I|].
+  destruct (is_nil (sel_tables tids (b_tables v))); [exact I|].
   set (D := sel_tables tids (b_tables v)). set (R := rest_tables tids (b_tables v)).
-  set (gc' := fold_left (fun acc t => add_linked acc (snd t)) D (b_gc v)).
+  set (gc' := fold_left (fun acc t => al acc (snd t)) D (b_gc v)).
   set (blobs' := filter (fun bf => negb (is_dead gc' bf)) (b_blobs v)).
   pose proof (vptrs_split tids v) as PV. fold D R in PV.
   assert (NoDup (map bf_id blobs')) as NDids by (apply NoDup_map_filter, (bi_fids _ _ I)).
-  (* the new statistics are exact (len, bytes) for every old file w.r.t. the remaining tables *)
+  (* the new statistics are exact for every old file w.r.t. the remaining tables *)
   assert (forall bf, In bf (b_blobs v) ->
-            gce_eq false (gc_get gc' (bf_id bf)) (gsum (garb (tptrs R) bf))) as EX.
-  { intros bf HI. eapply gce_eq_trans; [apply gc_get_drop_fold|].
-    apply (exact_after_removal false v bf (tptrs D) (tptrs R));
-      [eapply BInvG_weaken; eauto | exact HI | exact PV]. }
+            gce_eq d (gc_get gc' (bf_id bf)) (gsum (garb (tptrs R) bf))) as EX.
+  { intros bf HI. eapply gce_eq_trans; [apply (gc_get_drop_fold d al D AE)|].
+    apply (exact_after_removal d v bf (tptrs D) (tptrs R) I HI PV). }
   assert (forall p, In p (tptrs R) -> In p (vptrs v)) as RV.
   { intros p Hp. eapply Permutation_in; [apply Permutation_sym; exact PV|].
     apply in_or_app. now right. }
   constructor; cbn [b_tables b_blobs b_gc].
   - apply NoDup_map_filter, (bi_tids _ _ I).
   - exact NDids.
-  - apply keys_drop_fold_nodup, (bi_gkeys _ _ I).
+  - apply (keys_drop_fold_nodup al D AK), (bi_gkeys _ _ I).
   - intros bf HI. apply filter_In in HI. apply (bi_files _ _ I bf). tauto.
   - intros t e Ht He. eapply (bi_wf _ _ I); [eapply in_rest_tables; eauto | exact He].
   - intros p Hp. change (In p (tptrs R)) in Hp.
@@ -1219,7 +1281,7 @@ Proof.
     rewrite <- Eid. apply find_file_in; [exact NDids|]. apply filter_In. split; [exact HI|].
     apply negb_true_iff. destruct (is_dead gc' bf) eqn:DD; [|reflexivity]. exfalso.
     apply find_frame_in in Hf. destruct Hf as [Hfr Eo].
-    pose proof (proj1 (is_dead_spec gc' (tptrs R) bf (EX bf HI)
+    pose proof (proj1 (is_dead_spec gc' (tptrs R) bf (gce_eq_weaken _ _ _ (EX bf HI))
                          (proj1 (bi_files _ _ I bf HI))
                          (fun x Hx => POS bf x HI Hx)) DD fr Hfr) as NP.
     rewrite Eo in NP. rewrite (presolve_pointed _ _ _ _ Hp F) in NP. discriminate.
@@ -1233,6 +1295,21 @@ Proof.
     change (vptrs _) with (tptrs R). apply EX. exact HI'.
 Qed.
 
+(** dropping tables preserves the invariant in full (since the repair of F6 the on-disk
+    counter is maintained too) *)
+Theorem blob_drop_tables_inv d tids v :
+  BInvG d v -> frames_pos (b_blobs v) -> BInvG d (blob_drop_tables tids v).
+Proof. apply drop_tables_with_inv; [apply add_linked_exact | apply add_linked_keys]. Qed.
+
+(** 3.1.9's [with_dropped]: only len and bytes stay exact (see
+    [blob_drop_tables_old_inv_refuted]) *)
+Theorem blob_drop_tables_old_inv d tids v :
+  BInvG d v -> frames_pos (b_blobs v) -> BInvG false (blob_drop_tables_old tids v).
+Proof.
+  intros I POS. apply drop_tables_with_inv;
+    [apply add_linked_old_exact | apply add_linked_old_keys | eapply BInvG_weaken; eauto | exact POS].
+Qed.
+
 (** after a (non-trivial) drop no file of the version is dead: every file has a live pointer *)
 Theorem blob_drop_tables_no_dead d tids v :
   BInvG d v -> frames_pos (b_blobs v) ->
@@ -1241,7 +1318,7 @@ Theorem blob_drop_tables_no_dead d tids v :
   exists p, In p (vptrs (blob_drop_tables tids v)) /\ pf p = bf_id bf.
 Proof.
   intros I POS KN NE bf. pose proof (blob_drop_tables_inv d tids v I POS) as I'.
-  revert I'. unfold blob_drop_tables. rewrite KN. cbn [negb].
+  revert I'. unfold blob_drop_tables, drop_tables_with. rewrite KN. cbn [negb].
   destruct (is_nil (sel_tables tids (b_tables v))) eqn:NIL;
     [apply is_nil_spec in NIL; contradiction|].
   set (gc' := fold_left _ _ _). intros I' HI. cbn [b_blobs] in HI.
@@ -1250,7 +1327,7 @@ Proof.
   assert (frames_pos (b_blobs v')) as POS'.
   { intros b fr Hb Hf. cbn [b_blobs v'] in Hb. apply filter_In in Hb. eapply POS; [apply Hb | exact Hf]. }
   destruct (bi_files _ _ I' bf HI0) as [NEf _].
-  pose proof (BInv_is_dead false v' bf I' POS' HI0) as DS. cbn [b_gc v'] in DS.
+  pose proof (BInv_is_dead d v' bf I' POS' HI0) as DS. cbn [b_gc v'] in DS.
   destruct (frames bf) as [|fr0 rest] eqn:EF; [congruence|].
   assert (exists fr, In fr (frames bf) /\ pointed (vptrs v') (bf_id bf) (fr_off fr) = true) as (fr & Hf & PT).
   { destruct (existsb (fun fr => pointed (vptrs v') (bf_id bf) (fr_off fr)) (frames bf)) eqn:EX.
@@ -1796,7 +1873,7 @@ Proof.
     pose proof (presolve_has_file _ _ (bi_res _ _ I' p Hp)) as HF.
     apply in_map_iff in HF. destruct HF as (b & Eb & Hb).
     assert (In b (b_blobs v)) as Hb'.
-    { revert Hb. unfold blob_drop_tables. destruct (negb (tids_known tids v)); [auto|].
+    { revert Hb. unfold blob_drop_tables, drop_tables_with. destruct (negb (tids_known tids v)); [auto|].
       destruct (is_nil _); [auto|]. cbn [b_blobs]. intros Hb. apply filter_In in Hb. tauto. }
     assert (b = bf) as <-; [|exact Hb].
     pose proof (find_file_in _ _ (bi_fids _ _ I) Hb') as F1.
@@ -1807,7 +1884,7 @@ Qed.
 Lemma drop_vptrs_incl tids v p :
   In p (vptrs (blob_drop_tables tids v)) -> In p (vptrs v).
 Proof.
-  unfold blob_drop_tables. destruct (negb (tids_known tids v)); [auto|].
+  unfold blob_drop_tables, drop_tables_with. destruct (negb (tids_known tids v)); [auto|].
   destruct (is_nil _); [auto|]. rewrite !vptrs_tptrs. cbn [b_tables]. intros H.
   apply in_tptrs in H. destruct H as (t & Ht & Hp). apply in_tptrs. exists t.
   split; [eapply in_rest_tables; eauto | exact Hp].
@@ -1878,40 +1955,16 @@ Proof.
   split; [exact A|]. split; [|exact C]. intros P. apply B; [exact P|]. intros bf fr [].
 Qed.
 
-Lemma keys_fold_nodisk lk : forall m k,
-  In k (map fst (fold_left (fun acc kx => gc_add_nodisk acc (fst kx) (snd kx)) lk m)) <->
-  In k (map fst lk) \/ In k (map fst m).
-Proof.
-  induction lk as [|[f x] lk IH]; intros m k; cbn [fold_left map fst In]; [tauto|].
-  rewrite IH. unfold gc_add_nodisk. rewrite keys_add_with. cbn [fst snd]. split.
-  - intros [H|[->|H]]; auto.
-  - intros [[->|H]|H]; auto.
-Qed.
-
-Lemma keys_drop_fold (tabs : list (N * list entry)) : forall m k,
-  In k (map fst (fold_left (fun acc t => add_linked acc (snd t)) tabs m)) ->
-  In k (map fst m) \/ exists p, In p (tptrs tabs) /\ pf p = k.
-Proof.
-  induction tabs as [|t tabs IH]; intros m k H; cbn [fold_left] in H; [now left|].
-  destruct (IH _ _ H) as [H1|(p & Hp & E)].
-  - unfold add_linked in H1. apply keys_fold_nodisk in H1. destruct H1 as [H1|H1]; [|now left].
-    unfold linked_of in H1. apply keys_of_log in H1. destruct H1 as (p & Hp & E).
-    right. exists p. split; [|exact E]. change (tptrs (t :: tabs)) with (ptrs (snd t) ++ tptrs tabs).
-    apply in_or_app. now left.
-  - right. exists p. split; [|exact E]. change (tptrs (t :: tabs)) with (ptrs (snd t) ++ tptrs tabs).
-    apply in_or_app. now right.
-Qed.
-
 Theorem blob_drop_tables_aux d tids v nid :
   BInvG d v -> ids_below nid v ->
   let v' := blob_drop_tables tids v in
   ids_below nid v' /\ (frames_pos (b_blobs v) -> frames_pos (b_blobs v')).
 Proof.
-  intros I [B1 B2] v'. unfold v', blob_drop_tables.
+  intros I [B1 B2] v'. unfold v', blob_drop_tables, drop_tables_with.
   destruct (negb (tids_known tids v)); [split; [split|]; auto|].
   destruct (is_nil _); [split; [split|]; auto|]. cbn [b_blobs b_gc]. split; [split|].
   - intros bf HI. apply filter_In in HI. apply B1. tauto.
-  - intros k Hk. apply keys_drop_fold in Hk. destruct Hk as [Hk|(p & Hp & <-)]; [auto|].
+  - intros k Hk. apply (keys_drop_fold _ _ add_linked_keys) in Hk. destruct Hk as [Hk|(p & Hp & <-)]; [auto|].
     assert (In p (vptrs v)) as Hv.
     { rewrite vptrs_tptrs. apply in_tptrs in Hp. destruct Hp as (t & Ht & Hp). apply in_tptrs.
       exists t. split; [eapply in_sel_tables; eauto | exact Hp]. }
@@ -2253,20 +2306,24 @@ Qed.
 Ltac by_check := apply check_binv_g_iff; vm_compute; reflexivity.
 Ltac by_check_not := let H := fresh in intros H; apply check_binv_g_iff in H; vm_compute in H; discriminate.
 
-(** (1) [with_dropped] forgets [on_disk_bytes] when the file already has an entry
-    (version/mod.rs:445-449): the full invariant is NOT preserved by dropping tables; the
-    strongest true variant is [blob_drop_tables_inv] (len and bytes stay exact).
-    Witness: worker.rs blob_file_picking_simple continued by drop_range("b"..="b"):
-    statistics {0: (2, 2, 1)}, truth (2, 2, 2). *)
-Theorem blob_drop_tables_inv_refuted :
+(** (1) finding F6 (fixed): 3.1.9's [with_dropped] forgot [on_disk_bytes] when the file
+    already had an entry (the [and_modify] closure, version/mod.rs): with it the full
+    invariant was NOT preserved by dropping tables, only len and bytes stayed exact
+    ([blob_drop_tables_old_inv]).  Pre-fix witness: worker.rs blob_file_picking_simple
+    continued by drop_range("b"..="b"): statistics {0: (2, 2, 1)}, truth (2, 2, 2).
+    The current code ([blob_drop_tables]) gets (2, 2, 2). *)
+Theorem blob_drop_tables_old_inv_refuted :
   exists tids v, BInv v /\ frames_pos (b_blobs v) /\ gc_pruned v /\
-    ~ BInv (blob_drop_tables tids v) /\
-    gc_get (b_gc (blob_drop_tables tids v)) 0 = mkG 2 2 1 /\
-    garbage_of (blob_drop_tables tids v) 0 = mkG 2 2 2.
+    ~ BInv (blob_drop_tables_old tids v) /\
+    gc_get (b_gc (blob_drop_tables_old tids v)) 0 = mkG 2 2 1 /\
+    garbage_of (blob_drop_tables_old tids v) 0 = mkG 2 2 2 /\
+    BInv (blob_drop_tables tids v) /\
+    gc_get (b_gc (blob_drop_tables tids v)) 0 = mkG 2 2 2.
 Proof.
   exists [2], BlobEx.p3. split; [by_check|]. split; [apply frames_pos_b_spec; reflexivity|].
   split; [apply gc_pruned_b_spec; reflexivity|]. split; [by_check_not|].
-  split; vm_compute; reflexivity.
+  split; [vm_compute; reflexivity|]. split; [vm_compute; reflexivity|].
+  split; [by_check | vm_compute; reflexivity].
 Qed.
 
 (** (2) [with_dropped] does not prune the statistics: "no entry for files outside the
@@ -2285,14 +2342,16 @@ Proof.
   - split; vm_compute; reflexivity.
 Qed.
 
-(** (3) the stale entry meets a reused id: after [gc_pruned_drop_refuted]'s state is
-    reopened the counter restarts at 0, the next flush creates a NEW blob file 0 which
-    inherits the dead file's statistics, looks dead ([bytes = total_uncompressed]), and the
-    next merge removes it although the only entry of the tree points into it *)
+(** (3) finding F5 (fixed): with 3.1.9's recovery ([blob_reopen_old]: the statistics come
+    back unpruned) the stale entry of [gc_pruned_drop_refuted] meets a reused id: the
+    counter restarts at 0, the next flush creates a NEW blob file 0 which inherits the dead
+    file's statistics, looks dead ([bytes = total_uncompressed]), and the next merge removes
+    it although the only entry of the tree points into it.  (Reproduced on the crate:
+    put a; flush; drop_range(..); reopen; put b; flush; major_compact; get b panics.) *)
 Theorem reopen_ghost_refuted :
-  exists v, BInv v /\ ~ gc_pruned v /\ reopen_counter v = 0 /\
-    let v1 := fst (blob_flush 4 1000 0 (reopen_counter v) (BlobEx.one 1)
-                              [BlobEx.V BlobEx.kanother 1 BlobEx.big] v) in
+  exists v, BInv v /\ ~ gc_pruned v /\ snd (blob_reopen_old v) = 0 /\
+    let '(v0, nid) := blob_reopen_old v in
+    let v1 := fst (blob_flush 4 1000 0 nid (BlobEx.one 1) [BlobEx.V BlobEx.kanother 1 BlobEx.big] v0) in
     let v2 := blob_merge_standard 1000 true no_filter [1] (BlobEx.one 2) v1 in
     ~ BInvG false v1 /\ stale_bytes (b_gc v1) = 8 /\ garbage_of v1 0 = gzero /\
     b_blobs v2 = [] /\
@@ -2300,8 +2359,48 @@ Theorem reopen_ghost_refuted :
 Proof.
   exists BlobEx.k2. split; [by_check|]. split.
   - intros H. apply gc_pruned_b_spec in H. vm_compute in H. discriminate.
-  - split; [reflexivity|]. cbv zeta. split; [by_check_not|]. repeat split; vm_compute; reflexivity.
+  - split; [reflexivity|]. cbv zeta. unfold blob_reopen_old.
+    split; [by_check_not|]. repeat split; vm_compute; reflexivity.
 Qed.
+
+(** the current recovery (version/recovery.rs: statistics of unlisted blob files are
+    discarded) re-establishes "pruned", and with it the restarted counter is above
+    everything the version knows: statistics survive reopen exactly for the files that
+    survive *)
+Theorem blob_reopen_inv d v :
+  BInvG d v ->
+  let '(v', nid') := blob_reopen v in
+  BInvG d v' /\ gc_pruned v' /\ ids_below nid' v' /\
+  b_tables v' = b_tables v /\ b_blobs v' = b_blobs v /\
+  (forall bf, In bf (b_blobs v) -> gc_get (b_gc v') (bf_id bf) = gc_get (b_gc v) (bf_id bf)) /\
+  (frames_pos (b_blobs v) -> frames_pos (b_blobs v')).
+Proof.
+  intros I. unfold blob_reopen.
+  set (v' := mkBV (b_tables v) (b_blobs v) (gc_prune (b_gc v) (b_blobs v))).
+  assert (forall bf, In bf (b_blobs v) -> gc_get (b_gc v') (bf_id bf) = gc_get (b_gc v) (bf_id bf)) as GE.
+  { intros bf HI. cbn [v' b_gc]. rewrite gc_get_prune.
+    assert (has_file (b_blobs v) (bf_id bf) = true) as -> by (apply has_file_In; now apply in_map).
+    reflexivity. }
+  assert (gc_pruned v') as GP.
+  { intros f Hf. cbn [v' b_gc b_blobs] in *. apply keys_prune in Hf. destruct Hf as [_ Hf].
+    now apply has_file_In in Hf. }
+  split; [|split; [exact GP|split; [|repeat split; auto]]].
+  - destruct I as [H1 H2 H3 H4 H5 H6 H7 H8]. constructor; cbn [v' b_tables b_blobs b_gc]; auto.
+    + now apply keys_prune_nodup.
+    + intros bf HI. specialize (GE bf HI). cbn [v' b_gc] in GE. rewrite GE. exact (H8 bf HI).
+  - change (reopen_counter v) with (reopen_counter v'). now apply reopen_counter_fresh.
+Qed.
+
+(** B1's history under the current recovery: the new blob file 0 starts with clean
+    statistics and survives the merge *)
+Example blob_reopen_ex :
+  let '(v0, nid) := blob_reopen BlobEx.k2 in
+  let v1 := fst (blob_flush 4 1000 0 nid (BlobEx.one 1) [BlobEx.V BlobEx.kanother 1 BlobEx.big] v0) in
+  let v2 := blob_merge_standard 1000 true no_filter [1] (BlobEx.one 2) v1 in
+  nid = 0 /\ b_gc v0 = [] /\ check_binv v1 = true /\ stale_bytes (b_gc v1) = 0 /\
+  check_binv v2 = true /\ map bf_id (b_blobs v2) = [0] /\
+  map (resolve_or_inline v2) (concat (map snd (b_tables v2))) = [BlobEx.V BlobEx.kanother 1 BlobEx.big].
+Proof. vm_compute. repeat split; reflexivity. Qed.
 
 (** (4) relocation of a file that a table outside the compaction still points into
     (the eligibility check of pick_blob_files_to_rewrite left out): dangling pointer *)
@@ -2902,6 +3001,121 @@ Qed.
     by [drain_blobs]).  [relocate_scan_agrees_partial] (section 14b) is a computed instance,
     [relocate_scan_refuted] shows the seqno hypothesis cannot be dropped. *)
 
+(** ** End-to-end safety within one session.
+    [with_dropped] leaves statistics entries for files it removed ([gc_pruned_drop_refuted]),
+    so [gc_pruned] is NOT assumed here.  Such entries only concern ids below the counter
+    that are not in the version, the counter never goes back within a session
+    ([ids_below] is carried along), so they are never looked at again: flush, merge
+    (standard or relocating) and drop preserve the invariant, the id bound and non-empty
+    values, and none of them removes a file of [v] into which a pointer of the resulting
+    version points. *)
+Lemma live_file_kept d v v' bf p :
+  BInvG d v' -> NoDup (map bf_id (b_blobs v)) ->
+  (forall b, In b (b_blobs v') -> In b (b_blobs v) \/ bf_id b <> bf_id bf) ->
+  In bf (b_blobs v) -> In p (vptrs v') -> pf p = bf_id bf -> In bf (b_blobs v').
+Proof.
+  intros I' ND SUB HI Hp E.
+  pose proof (presolve_has_file _ _ (bi_res _ _ I' p Hp)) as HF. apply in_map_iff in HF.
+  destruct HF as (b & Eb & Hb). destruct (SUB b Hb) as [Hb'|NE]; [|congruence].
+  assert (b = bf) as <-; [|exact Hb].
+  pose proof (find_file_in _ _ ND Hb') as F1. pose proof (find_file_in _ _ ND HI) as F2.
+  rewrite Eb, E in F1. congruence.
+Qed.
+
+Lemma with_merge_blobs_sub v tids newtabs diff newfiles drops b :
+  In b (b_blobs (with_merge v tids newtabs diff newfiles drops)) -> In b (b_blobs v) \/ In b newfiles.
+Proof.
+  rewrite with_merge_blobs. intros H. apply filter_In in H. destruct H as [H _]. now apply in_app_or in H.
+Qed.
+
+Definition keeps_live (v v' : bversion) : Prop :=
+  forall bf p, In bf (b_blobs v) -> In p (vptrs v') -> pf p = bf_id bf -> In bf (b_blobs v').
+
+Theorem ghost_harmless_in_session d v nid :
+  BInvG d v -> frames_pos (b_blobs v) -> ids_below nid v ->
+  (* flush *)
+  (forall thr target W split mem, 0 < thr ->
+     (forall e, In e mem -> ty e <> Ind) -> split_ok split (b_tables v) ->
+     let r := blob_flush thr target W nid split mem v in
+     BInvG d (fst r) /\ frames_pos (b_blobs (fst r)) /\ ids_below (snd r) (fst r) /\ nid <= snd r /\
+     keeps_live v (fst r)) /\
+  (* standard merge *)
+  (forall W evict flt tids split, flt_plain flt -> split_ok split (b_tables v) ->
+     let v' := blob_merge_standard W evict flt tids split v in
+     BInvG d v' /\ frames_pos (b_blobs v') /\ ids_below nid v' /\ keeps_live v v') /\
+  (* relocating merge *)
+  (forall W evict flt tids rw target split, flt_plain flt -> split_ok split (b_tables v) ->
+     reloc_ok tids rw v ->
+     let r := blob_merge_relocating W evict flt tids rw target nid split v in
+     BInvG d (fst r) /\ frames_pos (b_blobs (fst r)) /\ ids_below (snd r) (fst r) /\ nid <= snd r /\
+     keeps_live v (fst r)) /\
+  (* dropping tables *)
+  (forall tids,
+     let v' := blob_drop_tables tids v in
+     BInvG d v' /\ frames_pos (b_blobs v') /\ ids_below nid v' /\ keeps_live v v').
+Proof.
+  intros I POS IB. pose proof (bi_fids _ _ I) as ND.
+  split; [|split; [|split]].
+  - intros thr target W split mem TP NI SP r.
+    destruct (blob_flush_inv d thr target W nid split mem v I IB NI SP) as (A & B & C & D & _).
+    fold r in A, B, C, D.
+    split; [exact A|]. split; [apply D; auto|]. split; [exact B|]. split; [exact C|].
+    intros bf p HI Hp E. unfold r, blob_flush.
+    destruct (run_stream _ _ _ _) as [out lg]. destruct (separate _ _ _ _) as [ents w].
+    cbn [bw_finish fst b_blobs]. apply in_or_app. now left.
+  - intros W evict flt tids split FP SP v'.
+    pose proof (blob_merge_standard_inv d W evict flt tids split v I POS FP SP) as A. fold v' in A.
+    destruct (blob_merge_standard_aux W evict flt tids split v nid IB) as (B & C & _). fold v' in B, C.
+    split; [exact A|]. split; [apply C; exact POS|]. split; [exact B|].
+    intros bf p HI Hp E. apply (live_file_kept d v v' bf p A ND); auto.
+    intros b Hb. left. revert Hb. unfold v', blob_merge_standard.
+    destruct (negb (tids_known tids v)); [auto|]. destruct (run_stream _ _ _ _) as [out log].
+    intros Hb. apply with_merge_blobs_sub in Hb. destruct Hb as [Hb|[]]. exact Hb.
+  - intros W evict flt tids rw target split FP SP RO r.
+    destruct (blob_merge_relocating_inv d W evict flt tids rw target nid split v I POS IB FP SP RO)
+      as (A & B & C & D & _). fold r in A, B, C, D.
+    split; [exact A|]. split; [exact D|]. split; [exact B|]. split; [exact C|].
+    intros bf p HI Hp E. apply (live_file_kept d v (fst r) bf p A ND); auto.
+    intros b Hb. revert Hb A. unfold r, blob_merge_relocating.
+    destruct (negb (tids_known tids v)); [cbn [fst]; auto|].
+    destruct (run_stream _ _ _ _) as [out log].
+    destruct (relocate target (b_blobs v) rw (bw_new nid) out) as [out' w] eqn:HL.
+    cbn [bw_finish fst]. intros Hb _. apply with_merge_blobs_sub in Hb. destruct Hb as [Hb|Hb]; [now left|].
+    right.
+    (* the new files carry fresh ids *)
+    assert (nid <= bf_id b) as G.
+    { clear - HL Hb. 
+      assert (forall items w0 o w1, relocate target (b_blobs v) rw w0 items = (o, w1) ->
+                (forall x, In x (bw_files w0) -> nid <= bf_id x) -> nid <= bw_id w0 ->
+                bw_id w0 < bw_next w0 ->
+                (forall x, In x (bw_files w1) -> nid <= bf_id x)) as GEN.
+      { induction items as [|e r IHr]; intros w0 o w1 HR H0 H1 H2; cbn [relocate] in HR.
+        - inversion HR; subst. exact H0.
+        - destruct (ptr_of e) as [q|]; [destruct (memN (pf q) rw);
+            [destruct (find_frame (b_blobs v) (pf q) (po q)) as [fq|]|]|].
+          + destruct (bw_write target w0 (ukey e) (seq e) (fr_val fq) (fr_disk fq)) as [w3 hh] eqn:HW.
+            destruct (relocate target (b_blobs v) rw w3 r) as [o3 w4] eqn:HR3. inversion HR; subst.
+            unfold bw_write in HW.
+            assert (forall x, In x (add_frame (bw_files w0) (bw_id w0)
+                       (mkFr (ukey e) (seq e) (bw_off w0) (fr_val fq) (fr_disk fq))) -> nid <= bf_id x) as AF.
+            { intros x Hx. destruct (add_frame_in _ _ _ _ Hx) as [H|(A & _)]; [auto | lia]. }
+            destruct (target <=? _); inversion HW; subst;
+              eapply (IHr _ _ _ HR3); cbn [bw_files bw_id bw_next]; auto; lia.
+          + destruct (relocate target (b_blobs v) rw w0 r) as [o3 w4] eqn:HR3. inversion HR; subst. eauto.
+          + destruct (relocate target (b_blobs v) rw w0 r) as [o3 w4] eqn:HR3. inversion HR; subst. eauto.
+          + destruct (relocate target (b_blobs v) rw w0 r) as [o3 w4] eqn:HR3. inversion HR; subst. eauto. }
+      apply (GEN out (bw_new nid) out' w HL); cbn [bw_new bw_files bw_id bw_next]; [intros x [] | lia | lia | exact Hb]. }
+    pose proof (proj1 IB bf HI). lia.
+  - intros tids v'.
+    pose proof (blob_drop_tables_inv d tids v I POS) as A. fold v' in A.
+    destruct (blob_drop_tables_aux d tids v nid I IB) as (B & C). fold v' in B, C.
+    split; [exact A|]. split; [apply C; exact POS|]. split; [exact B|].
+    intros bf p HI Hp E. apply (live_file_kept d v v' bf p A ND); auto.
+    intros b Hb. left. revert Hb. unfold v', blob_drop_tables, drop_tables_with.
+    destruct (negb (tids_known tids v)); [auto|]. destruct (is_nil _); [auto|].
+    cbn [b_blobs]. intros Hb. apply filter_In in Hb. tauto.
+Qed.
+
 (** * 15. Instances of the main theorems (hypotheses checked, theorem applied) *)
 
 Lemma one_split_ok id old : ~ In id (map fst old) -> split_ok (BlobEx.one id) old.
@@ -2943,7 +3157,7 @@ Proof.
   - apply one_split_ok. not_in.
 Qed.
 
-Example blob_drop_tables_inv_ex : BInvG false (blob_drop_tables [2] BlobEx.p3).
+Example blob_drop_tables_inv_ex : BInv (blob_drop_tables [2] BlobEx.p3).
 Proof.
   apply (blob_drop_tables_inv true); [by_check | apply frames_pos_b_spec; reflexivity].
 Qed.
@@ -3029,7 +3243,10 @@ Print Assumptions blob_resolves.
 Print Assumptions blob_flush_transparent.
 Print Assumptions blob_merge_transparent.
 Print Assumptions blob_merge_relocating_transparent.
-Print Assumptions blob_drop_tables_inv_refuted.
+Print Assumptions blob_drop_tables_old_inv.
+Print Assumptions blob_drop_tables_old_inv_refuted.
+Print Assumptions blob_reopen_inv.
+Print Assumptions ghost_harmless_in_session.
 Print Assumptions gc_pruned_drop_refuted.
 Print Assumptions reopen_ghost_refuted.
 Print Assumptions reloc_ineligible_refuted.
